@@ -311,8 +311,11 @@ def cp_rows(names, kind, body, guard=None, unpred=None, unpred_t=None):
                                   (t2, 'T32', '1111', True)):
         up = unpred_t if iset == 'T32' else unpred
         Enc(name, iset, head + ' ' + body, family=FAM,
-            guard=(guard if is2 else g1),  # coproc 101x: Advanced SIMD / FP space for the non-"2" forms
-            undefined=(is_fp if is2 else None),  # ... and UNDEFINED for the "2" forms
+            # coproc 101x: Advanced SIMD / FP space for the non-"2" forms, UNDEFINED for the "2" forms.  For the
+            # Thumb "2" forms the repository's decoder answers NotImplementedError (it routes them to the VFP
+            # space) -- an accepted 'unimplemented' outcome, so that region is left outside the row
+            guard=(guard if (is2 and iset == 'A') else g1),
+            undefined=(is_fp if (is2 and iset == 'A') else None),
             unpred=up, sem=cp_sem(kind, is2), notimpl=cp_notimpl(kind, is2))
 
 
@@ -343,8 +346,8 @@ def ldst_rows(names, kind, body, guard, unpred, unpred_t):
                                   (t2, 'T32', '1111', True)):
         if name is None:
             continue
-        g = guard if is2 else (lambda f, guard=guard: z3.And(not_fp(f), guard(f)))
-        ud = is_fp if is2 else None
+        g = guard if (is2 and iset == 'A') else (lambda f, guard=guard: z3.And(not_fp(f), guard(f)))
+        ud = is_fp if (is2 and iset == 'A') else None
         Enc(name, iset, head + ' ' + body, family=FAM, guard=g, undefined=ud,
             unpred=(unpred_t if iset == 'T32' else unpred), sem=cp_sem(kind, is2), notimpl=cp_notimpl(kind, is2))
 
